@@ -135,5 +135,16 @@ check("C07", "exploration",
       "through reference-preserving chains with an own-type mutator must end in an exception.",
       "Trusted: snapshots taken from C++. Converting parameter forms (shared_ptr<int>/reference_wrapper<int> fed from an arithmetic value) are judged on conservation only.",
       "conservation oracle over harness-owned const objects + outcome check, on generated alias chains x mutators, under ASan", "DESIGN.md section 5 C07")
+check("C06", "exploration",
+      "Inbound: 2.5k/150k seeded overload sets (1-4 signatures from 58 one-parameter forms - value, const&, &, *, const*, shared_ptr, "
+      "shared_ptr<const> over int/double/bool/string/Base/Derived/Other, other arithmetic types, Boxed_Value, Boxed_Number, std::function, "
+      "vector - and 12 two-parameter signatures; seeded registration order) x 16-25 calls with arguments from 33 script value kinds incl. wrong "
+      "arity; every function logs overload id, received values and addresses. Trace specification over the entry log: <= 1 entry per call, "
+      "exactly 1 iff the call returns, entered overload admissible (MUST/MAY/NEVER table from the documented conversions), no error when the "
+      "choice is unambiguous and admissible, exact overload preferred, by-reference arguments at the same address, values equal after "
+      "conversion. Outbound: 33 value kinds x 16 requested types x eval<T>/boxed_cast<T>/std::function<T()>: value only if admissible, "
+      "otherwise bad_boxed_cast.",
+      "Trusted: the admissibility table (calibrated against the observed single-overload matrix, which agrees with the documented rules cell by cell). MAY cells and ambiguous non-exact candidate sets are logged, never judged.",
+      "trace specification over an entry log of instrumented C++ functions, on generated overload sets x argument tuples, under ASan", "DESIGN.md section 5 C06")
 for _p in ["C%02d" % i for i in range(2, 21) if "C%02d" % i not in CHECKS]:
     NA[_p] = "check not implemented yet in this revision (work in progress, see DESIGN.md); nothing is claimed"
